@@ -334,6 +334,10 @@ func perturbations(r *vh.RNG, d *doc, signer []byte) []pert {
 	add("fee_granter", "unlisted", "", true, func(c *doc) bool { c.Granter = accStr(genAddrBytes(r)); return true })
 	add("fee_payer", "unlisted", "", true, func(c *doc) bool { c.Payer = accStr(genAddrBytes(r)); return true })
 	add("timeout_height", "unlisted", "", true, func(c *doc) bool { c.Timeout = uint64(r.Range(1, 1_000_000)); return true })
+	add("tip", "unlisted", "", true, func(c *doc) bool {
+		c.Tip = &txtypes.Tip{Amount: genCoins(r, 1), Tipper: accStr(genAddrBytes(r))} // only the protobuf AuthInfo carries it
+		return true
+	})
 	return out
 }
 
@@ -367,29 +371,34 @@ func typedBytes(signBytes []byte) (raw []byte, err error) {
 // hashIndex detects collisions between ANY two docs seen in the run (not only siblings).
 type hashIndex struct {
 	mu [64]sync.Mutex
-	m  [64]map[[32]byte][16]byte
+	m  [64]map[[32]byte]idxEntry
+}
+
+type idxEntry struct {
+	id   [16]byte
+	from int32 // case index that produced the hash first
 }
 
 func newHashIndex() *hashIndex {
 	h := &hashIndex{}
 	for i := range h.m {
-		h.m[i] = map[[32]byte][16]byte{}
+		h.m[i] = map[[32]byte]idxEntry{}
 	}
 	return h
 }
 
-// put returns false when the hash is already known for a different identity.
-func (h *hashIndex) put(raw []byte, id [16]byte) bool {
+// put returns (false, first case) when the hash is already known for a different identity.
+func (h *hashIndex) put(raw []byte, id [16]byte, from int) (bool, int) {
 	var k [32]byte
 	copy(k[:], ethcrypto.Keccak256(raw))
 	s := int(k[0]) % 64
 	h.mu[s].Lock()
 	defer h.mu[s].Unlock()
 	if old, ok := h.m[s][k]; ok {
-		return old == id
+		return old.id == id, int(old.from)
 	}
-	h.m[s][k] = id
-	return true
+	h.m[s][k] = idxEntry{id, int32(from)}
+	return true, from
 }
 
 type docEnv struct {
@@ -518,8 +527,8 @@ func (e *docEnv) checkDoc(i int) {
 		}
 		rawByFmt[fi] = rawA
 		run.Count("doc.base-accepted:"+format, 1)
-		if !e.idx.put(rawA, d.identity()) {
-			run.Violation("eip712-hash-collision:global", label, map[string]any{"format": format, "doc": d.describe(), "typed_bytes": short(rawA),
+		if ok, first := e.idx.put(rawA, d.identity(), i); !ok {
+			run.Violation("eip712-hash-collision:global", label, map[string]any{"format": format, "doc": d.describe(), "typed_bytes": short(rawA), "first_seen_in_case": fmt.Sprintf("doc/%d", first),
 				"note": "another document with a different identity (listed fields) produced the same typed-data bytes earlier in this run"})
 		}
 		sig712, err := priv.Sign(ethcrypto.Keccak256(rawA))
@@ -587,9 +596,11 @@ func (e *docEnv) checkDoc(i int) {
 				if p.group == "msg-field" {
 					e.kindsCompared.Store(p.kind, true)
 				}
-				if !p.unlisted && !e.idx.put(rawB, p.doc.identity()) {
-					run.Violation("eip712-hash-collision:global", label, witness(map[string]any{"typed_bytes_B": short(rawB),
-						"note": "perturbed document B collides with an unrelated document seen earlier in this run"}))
+				if !p.unlisted {
+					if ok, first := e.idx.put(rawB, p.doc.identity(), i); !ok {
+						run.Violation("eip712-hash-collision:global", label, witness(map[string]any{"typed_bytes_B": short(rawB), "first_seen_in_case": fmt.Sprintf("doc/%d", first),
+							"note": "perturbed document B collides with a document of different identity seen earlier in this run"}))
+					}
 				}
 			}
 			if e.verify(pub, bzB, sig712) {
